@@ -198,7 +198,7 @@ class HMat(M.Materialiser):
             finally:
                 self.depth -= 1
             return py, M.StructNode(t, f)
-        if k == "ref" and isinstance(spec, dict) and set(spec) == {"obj"}:
+        if k == "ref" and isinstance(spec, dict) and set(spec) <= {"obj", "view"}:
             o = self._obj(spec["obj"])
             if o.t != ty["to"]:
                 raise KeyError("type mismatch")
